@@ -520,6 +520,167 @@ Proof.
   - cbn [forallb]. unfold arg_ok. rewrite Hr, Hp. apply Z.leb_le in Hh. rewrite Hh. reflexivity.
 Qed.
 
+(* ---------- the output is a function of the enumerated (path, content) pairs only ---------- *)
+(* the case runner's tail-recursive concatenation is [stdout_of] *)
+Lemma fold_rev_append : forall (l : list bytes) acc,
+  fold_left (fun acc x => rev_append x acc) l acc = rev (concat l) ++ acc.
+Proof.
+  induction l as [|a l IH]; intros acc; [reflexivity|].
+  cbn [fold_left concat]. rewrite IH, rev_append_rev, rev_app_distr, <- app_assoc. reflexivity.
+Qed.
+
+Lemma cat_tr_concat : forall l, cat_tr l = concat l.
+Proof.
+  intros l. unfold cat_tr. rewrite fold_rev_append, app_nil_r, rev_append_rev, rev_involutive.
+  apply app_nil_r.
+Qed.
+
+Lemma stdout_tr_eq : forall body argv0 es, stdout_tr body argv0 es = stdout_of body argv0 es.
+Proof.
+  intros body argv0 es. unfold stdout_tr, stdout_of. rewrite cat_tr_concat, flat_map_concat_map.
+  f_equal. apply map_ext. intros e. destruct e; try reflexivity.
+  unfold out_of_tr. rewrite cat_tr_concat. cbn [concat out_of]. now rewrite app_nil_r.
+Qed.
+
+(* two scans - other trees, other arguments, other standard input - that enumerate the same
+   (path, content) pairs print the same: nothing but the pairs enters the output *)
+Lemma scan_output_of_enumeration_only : forall body argv0 fs1 d1 rest1 stdin1 fs2 d2 rest2 stdin2,
+  plain_arg d1 = true -> forallb (arg_ok fs1) (d1 :: rest1) = true ->
+  plain_arg d2 = true -> forallb (arg_ok fs2) (d2 :: rest2) = true ->
+  flat_map (arg_files fs1) (d1 :: rest1) = flat_map (arg_files fs2) (d2 :: rest2) ->
+  stdout_of body argv0 (fst (main_run repaired fs1 (bs "-r" :: d1 :: rest1) stdin1))
+  = stdout_of body argv0 (fst (main_run repaired fs2 (bs "-r" :: d2 :: rest2) stdin2)).
+Proof.
+  intros body argv0 fs1 d1 rest1 stdin1 fs2 d2 rest2 stdin2 H1 O1 H2 O2 E.
+  rewrite !scan_stdout by assumption. now rewrite E.
+Qed.
+
+(* the output is a sequence of blocks, one per enumerated file and a function of that file's
+   path and content alone; enumerations that are permutations of each other give the same
+   blocks in the permuted order *)
+Lemma scan_blocks_permute : forall body argv0 fs1 d1 rest1 stdin1 fs2 d2 rest2 stdin2,
+  plain_arg d1 = true -> forallb (arg_ok fs1) (d1 :: rest1) = true ->
+  plain_arg d2 = true -> forallb (arg_ok fs2) (d2 :: rest2) = true ->
+  Permutation (flat_map (arg_files fs1) (d1 :: rest1)) (flat_map (arg_files fs2) (d2 :: rest2)) ->
+  exists blocks1 blocks2,
+    blocks1 = map (report_text body) (flat_map (arg_files fs1) (d1 :: rest1)) /\
+    blocks2 = map (report_text body) (flat_map (arg_files fs2) (d2 :: rest2)) /\
+    stdout_of body argv0 (fst (main_run repaired fs1 (bs "-r" :: d1 :: rest1) stdin1)) = concat blocks1 /\
+    stdout_of body argv0 (fst (main_run repaired fs2 (bs "-r" :: d2 :: rest2) stdin2)) = concat blocks2 /\
+    Permutation blocks1 blocks2.
+Proof.
+  intros body argv0 fs1 d1 rest1 stdin1 fs2 d2 rest2 stdin2 H1 O1 H2 O2 P.
+  eexists. eexists. split; [reflexivity|]. split; [reflexivity|].
+  split; [now apply scan_stdout|]. split; [now apply scan_stdout|].
+  now apply Permutation_map.
+Qed.
+
+(* changing the contents of the files of a tree (any function of the content: a swap of two
+   siblings' contents is one) changes nothing in the enumeration but the contents: same paths,
+   same order - so each output block becomes the block of the same path with the new content,
+   and no block depends on the content of another file *)
+Fixpoint map_content (g : bytes -> bytes) (n : node) : node :=
+  match n with
+  | Reg a c => Reg a (g c)
+  | LinkFile a c => LinkFile a (g c)
+  | Dir a ch => Dir a (map (map_content g) ch)
+  | LinkDir a ch => LinkDir a (map (map_content g) ch)
+  | _ => n
+  end.
+
+Lemma map_content_name : forall g n, node_name (map_content g n) = node_name n.
+Proof. intros g n. destruct n; reflexivity. Qed.
+
+Lemma read_dir_map_content : forall g ch,
+  read_dir (map (map_content g) ch) = map (map_content g) (read_dir ch).
+Proof.
+  intros g ch. unfold read_dir at 1. unfold keyed. rewrite map_map.
+  rewrite (map_ext (fun x => (node_name (map_content g x), map_content g x))
+                   (fun x => (node_name x, map_content g x)))
+    by (intros x; now rewrite map_content_name).
+  rewrite (sort_by_keyed (map_content g)). rewrite map_map. reflexivity.
+Qed.
+
+Lemma sort_tree_map_content : forall g n, sort_tree (map_content g n) = map_content g (sort_tree n).
+Proof.
+  intros g. induction n using node_ind2; try reflexivity.
+  - cbn [map_content]. rewrite !sort_tree_dir. cbn [map_content]. f_equal.
+    rewrite read_dir_map_content, !map_map. apply map_ext_in. intros c Hc.
+    apply (proj1 (read_dir_In _ _)) in Hc. rewrite Forall_forall in H. now apply H.
+  - cbn [map_content]. rewrite !sort_tree_linkdir. cbn [map_content]. f_equal.
+    rewrite read_dir_map_content, !map_map. apply map_ext_in. intros c Hc.
+    apply (proj1 (read_dir_In _ _)) in Hc. rewrite Forall_forall in H. now apply H.
+Qed.
+
+Definition recontent (g : bytes -> bytes) (pc : bytes * bytes) : bytes * bytes := (fst pc, g (snd pc)).
+
+Lemma files_of_map_content : forall g n f,
+  files_of (map_content g n) f = map (recontent g) (files_of n f).
+Proof.
+  intros g. induction n using node_ind2; intros f; try reflexivity.
+  cbn [map_content files_of]. rewrite !flat_map_concat_map, concat_map, !map_map. f_equal.
+  apply map_ext_in. intros c Hc. rewrite Forall_forall in H. now apply H.
+Qed.
+
+Lemma dfs_map_content : forall g ch d,
+  dfs_sorted_regular_files (map (map_content g) ch) d
+  = map (recontent g) (dfs_sorted_regular_files ch d).
+Proof.
+  intros g ch d. unfold dfs_sorted_regular_files, files_in. rewrite !sort_listing_eq.
+  rewrite read_dir_map_content, !flat_map_concat_map, concat_map, !map_map. f_equal.
+  apply map_ext. intros c. rewrite sort_tree_map_content. apply files_of_map_content.
+Qed.
+
+Lemma height_map_content : forall g n, height (map_content g n) = height n.
+Proof.
+  intros g. induction n using node_ind2; try reflexivity.
+  cbn [map_content height]. f_equal. induction H as [|x l Hx Hl IH]; [reflexivity|].
+  cbn [map fold_right]. now rewrite Hx, IH.
+Qed.
+
+Lemma height_in_map_content : forall g ch, height_in (map (map_content g) ch) = height_in ch.
+Proof.
+  intros g ch. unfold height_in. induction ch as [|x l IH]; [reflexivity|].
+  cbn [map fold_right]. now rewrite height_map_content, IH.
+Qed.
+
+Lemma paths_ok_map_content : forall g n f, paths_ok (map_content g n) f = paths_ok n f.
+Proof.
+  intros g. induction n using node_ind2; intros f; try reflexivity.
+  cbn [map_content paths_ok node_name]. f_equal.
+  induction H as [|x l Hx Hl IH]; [reflexivity|]. cbn [map forallb]. now rewrite Hx, IH.
+Qed.
+
+Lemma paths_ok_in_map_content : forall g ch d, paths_ok_in (map (map_content g) ch) d = paths_ok_in ch d.
+Proof.
+  intros g ch d. unfold paths_ok_in. f_equal. induction ch as [|x l IH]; [reflexivity|].
+  cbn [map forallb]. now rewrite paths_ok_map_content, IH.
+Qed.
+
+Lemma scan_follows_contents : forall body argv0 g fs fs' d ch stdin stdin',
+  plain_arg d = true -> resolve fs d = SDir ch -> resolve fs' d = SDir (map (map_content g) ch) ->
+  (Z.of_nat (height_in ch) <= max_depth)%Z -> paths_ok_in ch d = true ->
+  stdout_of body argv0 (fst (main_run repaired fs [bs "-r"; d] stdin))
+  = concat (map (report_text body) (dfs_sorted_regular_files ch d)) /\
+  stdout_of body argv0 (fst (main_run repaired fs' [bs "-r"; d] stdin'))
+  = concat (map (fun pc => report_text body (fst pc, g (snd pc))) (dfs_sorted_regular_files ch d)).
+Proof.
+  intros body argv0 g fs fs' d ch stdin stdin' Hd Hr Hr' Hh Hp. split.
+  - now apply scan_one_directory_stdout.
+  - rewrite (scan_one_directory_stdout body argv0 fs' d (map (map_content g) ch) stdin' Hd Hr').
+    + rewrite dfs_map_content, map_map. reflexivity.
+    + now rewrite height_in_map_content.
+    + now rewrite paths_ok_in_map_content.
+Qed.
+
+(* swapping the contents of two sibling files: each keeps its place and path, the blocks carry
+   the other content *)
+Lemma example_swap_contents :
+  let g := fun c => if bytes_eqb c (bs "1") then bs "2" else if bytes_eqb c (bs "2") then bs "1" else c in
+  map (map_content g) [Reg (bs "a") (bs "1"); Reg (bs "b") (bs "2"); Fifo (bs "p"); Reg (bs "c") (bs "3")]
+  = [Reg (bs "a") (bs "2"); Reg (bs "b") (bs "1"); Fifo (bs "p"); Reg (bs "c") (bs "3")].
+Proof. vm_compute. reflexivity. Qed.
+
 (* ---------- refusals ---------- *)
 (* arguments that are regular files are reported, then the first directory without -r
    (or the first path that does not exist) ends the run with status 1 *)
